@@ -20,8 +20,15 @@ class LoopSpec:
     lemmas ...) about the current state, ASSUMED at the loop head and again before the invariant is
     re-established; they are listed in the trusted base."""
 
-    def __init__(self, inv, variant=None, lemmas=None, step_lemma=None, step_body_src=None, havoc_names=(), body_calls=None):
+    def __init__(self, inv, variant=None, lemmas=None, step_lemma=None, step_body_src=None, havoc_names=(), body_calls=None,
+                 ghost_update=None, step_post=None):
         self.inv, self.variant, self.lemmas = inv, variant, lemmas
+        # step_post(s, it): two-state postcondition of ONE pass through a while body (it.head = state at the loop head, s = state at the
+        # end of the body); an obligation of kind loop-step on every path through the body
+        self.step_post = step_post
+        # ghost_update(s, it): ghost assignment executed at the end of every pass through a while body, just before the invariant is
+        # re-established; it may only assign to the contract's ghost locals (names 'ghost_*'); it.head is the state at the loop head
+        self.ghost_update = ghost_update
         self.body_calls = body_calls or {}        # callee qualname -> number of modular calls every pass through the body must make
         self.havoc_names = tuple(havoc_names)      # objects the (abstract) body may modify besides what the syntax shows
         # step_lemma: qualname of a lemma unit proving "one execution of the loop body preserves inv";
@@ -39,8 +46,10 @@ class Contract:
                  make_ret=None, may_raise=None, must_raise=None, raise_allowed=None, loops=None, sites=None,
                  sites_strict=(), locals_=None, globals_=None, normalize=None, axioms=None, verify=True,
                  min_obligations=1, sum_hook=None, note='', local_sorts=None, post_lemmas=None, body=None,
-                 depends=()):
+                 depends=(), ghost_locals=None):
         self.file, self.qualname = file, qualname
+        # ghost locals: name ('ghost_*') -> maker; created empty at function entry, never touched by the code
+        self.ghost_locals = dict(ghost_locals or {})
         self.cases = cases or []
         self.requires, self.ensures, self.modifies = requires, ensures, tuple(modifies)
         self.pure, self.make_ret, self.may_raise = pure, make_ret, may_raise
@@ -286,6 +295,10 @@ def run_path(unit, lib, prefix, skip):
     for nm, mk in case.params.items():
         if nm.startswith('_'):
             run.ghost[nm] = mk(run, nm)
+    for nm, mk in sorted(getattr(c, 'ghost_locals', {}).items()):
+        if not nm.startswith('ghost_') or nm in env:
+            raise Unbindable('ghost local %r must be named ghost_* and must not clash with a parameter' % nm)
+        env[nm] = mk(run, nm, empty=True)
     for v in env.values():
         if hasattr(v, 'wellformed'):
             run.assume(v.wellformed())
